@@ -267,7 +267,19 @@ pub fn minimise(
         .unwrap_or_default();
     let mut best_res = first.clone();
     let mut used = 0usize;
+    // Minimisation is bounded in wall time too (slow failing runs, e.g. a retry loop
+    // that only the virtual-time cap ends): past the limit every candidate is refused,
+    // which ends all passes with the best tape so far.
+    let t0 = Instant::now();
+    let max_wall = Duration::from_secs(
+        std::env::var("VERIF_MINIMISE_SECS").ok().and_then(|s| s.parse().ok()).unwrap_or(240),
+    );
+    let budget = budget.max(1);
     let try_tape = |tape: &Vec<u64>, used: &mut usize| -> Option<RunResult> {
+        if *used > 0 && t0.elapsed() > max_wall {
+            *used = (*used).max(budget);
+            return None;
+        }
         *used += 1;
         let mut r = req.clone();
         r.tape = Some(tape.clone());
@@ -391,6 +403,7 @@ pub fn run_batch(
         if pid == 0 {
             let mut lines: Vec<String> = Vec::new();
             let mut agg = crate::evidence::Agg::default();
+            let mut seen_classes: std::collections::BTreeMap<String, u32> = std::collections::BTreeMap::new();
             let mut idx = k as u64;
             while idx < runs {
                 if started.elapsed() > batch_budget {
@@ -417,8 +430,15 @@ pub fn run_batch(
                 }
                 agg.add(&req, &res);
                 if res.status != "ok" {
+                    // The full report (tape included) is needed only for the first run of a
+                    // class; a change that fails every run must not exhaust memory.
+                    let class = format!("{}:{}", res.status, res.oracle);
+                    let seen = seen_classes.entry(class).or_insert(0u32);
+                    *seen += 1;
+                    let report = if *seen <= 1 { res.report.clone() } else { Value::Null };
+                    let msg: String = res.msg.chars().take(2000).collect();
                     lines.push(
-                        json!({"kind": "run", "run_index": idx, "status": res.status, "oracle": res.oracle, "msg": res.msg, "report": res.report, "wall_ms": res.wall_ms})
+                        json!({"kind": "run", "run_index": idx, "status": res.status, "oracle": res.oracle, "msg": msg, "report": report, "wall_ms": res.wall_ms})
                             .to_string(),
                     );
                 }
